@@ -15,6 +15,7 @@ import (
 	"github.com/prometheus/client_golang/prometheus"
 	"github.com/saucelabs/forwarder"
 	"github.com/saucelabs/forwarder/header"
+	"github.com/saucelabs/forwarder/httplog"
 	"github.com/saucelabs/forwarder/verifharness/rig"
 )
 
@@ -56,6 +57,8 @@ type env struct {
 	scripts   sync.Map // case id -> *script
 	used      sync.Map // proxy name -> true: the instances the batch went through
 	targets   map[string]string // virtual port -> real address (for the upstream proxy's tunnels)
+	routes    []forwarder.HostPortPair // the --connect-to rules of every proxy instance
+	uploads   sync.Map                 // case id -> *uploadSeen: what the origin read of an upload case's request
 }
 
 const probeBody = "probe-ok"
@@ -95,6 +98,7 @@ func idOfHost(h string) string {
 func (e *env) serveOrigin(pc *rig.PeerConn) {
 	for {
 		req, err := rig.ReadRequest(pc.BR)
+		e.noteUpload(req, err)
 		if err != nil {
 			return
 		}
@@ -359,6 +363,7 @@ func newEnv(root string) (*env, error) {
 	for port, addr := range e.targets {
 		routes = append(routes, rig.Route("", port, addr))
 	}
+	e.routes = routes
 	caFile, err := e.ca.WriteFile(root+"/.work", fmt.Sprintf("c12-ca-%d-%d.pem", time.Now().UnixNano(), syscall.Getpid()))
 	if err != nil {
 		return nil, err
@@ -367,7 +372,7 @@ func newEnv(root string) (*env, error) {
 	if err != nil {
 		return nil, err
 	}
-	mk := func(name, upstream string, mitm, tlsListener, handler bool, reg *prometheus.Registry) error {
+	mk := func(name, upstream string, mitm, tlsListener, handler bool, reg *prometheus.Registry, logMode string) error {
 		// command/run hands ONE registry to the transport (whose forwarder.Dialer labels its metrics with the
 		// host of every address it dials) and to the proxy; MITM and the TLS listener need one
 		if reg == nil {
@@ -423,6 +428,10 @@ func newEnv(root string) (*env, error) {
 				}
 				// martian's http.Handler under net/http's server instead of the TCP server (proxy_handler.go)
 				cfg.TestingHTTPHandler = handler
+				if logMode != "" {
+					// --log-http: the logger is a response modifier whatever the log sink is
+					cfg.LogHTTPMode = httplog.Mode(logMode)
+				}
 			},
 		})
 		e.proxies[name] = p
@@ -445,8 +454,17 @@ func newEnv(root string) (*env, error) {
 		// the same proxy served through martian's http.Handler (no interception there)
 		{"hdirect", "", false, false, nil}, {"hup", "up", false, false, nil}, {"htls", "", false, true, nil},
 	} {
-		if err := mk(pd.name, pd.up, pd.mitm, pd.tls, handlerProxies[pd.name], pd.reg); err != nil {
+		if err := mk(pd.name, pd.up, pd.mitm, pd.tls, handlerProxies[pd.name], pd.reg, ""); err != nil {
 			return nil, fmt.Errorf("proxy %s: %w", pd.name, err)
+		}
+	}
+	// the plain proxy again under every HTTP log mode of the product (logmode.go), both server variants
+	for _, m := range logModes() {
+		for _, h := range []bool{false, true} {
+			name := logProxyName(m, h)
+			if err := mk(name, "", false, false, h, nil, m); err != nil {
+				return nil, fmt.Errorf("proxy %s: %w", name, err)
+			}
 		}
 	}
 	return e, nil
@@ -473,6 +491,8 @@ func (e *env) noteDial(proxy, address string) {
 func (e *env) proxyFor(c *Case) (string, *rig.Proxy) {
 	name := "direct"
 	switch {
+	case c.LogMode != "":
+		name = logProxyName(c.LogMode, c.Server == "handler")
 	case c.Server == "handler" && c.Kind == "client" && c.Via == "tls":
 		name = "htls"
 	case c.Server == "handler" && c.Kind == "client":
